@@ -23,6 +23,7 @@ RULE = (
     "execution completed, the system has bilateral constraints and the configuration moved"
 )
 ASSUMPTIONS = [
+    "a run whose accepted states had already exploded (max |q|,|u| > 1e12: unstable step size for that scheme) and which then aborts with a linear-algebra error is a loud abort without returned rows (outcome 'exploded-then-raised'), not a crash",
     "solver tolerances are tightened by the harness (newton/fixed-point atol=rtol=1e-11, DualStormerVerlet 1e-10; ScipyDAE rtol=1e-6, atol=1e-8; ScipyIVP rtol=1e-9, "
     "atol=1e-11) so that 'within solver tolerance' is sharp: |g| <= 1e-8, |g_dot| <= 1e-9 (measured noise <= 5e-11 resp. 1e-14)",
     "ScipyDAE 'order of its requested tolerance' is read as K_DAE * (atol + rtol * max(1, |q|_inf, |u|_inf)) at every output row and 'without drift' "
@@ -82,9 +83,23 @@ def check(case):
     tol = DSV_TOL if solver.startswith("DSV") else SOLVER_TOL
     system = integ.build(scen, spring, level, seed=case.get("seed", 0), opts=integ.options(tol))
     outcome = []
+    # magnitude of the accepted states (to tell a loud abort of a numerically exploded run from a crash)
+    mag = {"max": 0.0}
+    _orig_cb = system.step_callback
+
+    def _cb(t_, q_, u_):
+        m = max(_absmax(q_), _absmax(u_))
+        mag["max"] = m if np.isfinite(m) else float("inf")
+        return _orig_cb(t_, q_, u_)
+
+    system.step_callback = _cb
     try:
         sol = integ.run(system, solver, dt, N, opts=integ.options(tol), dae_tol=DAE_TOL, ivp_tol=IVP_TOL)
     except Exception as e:  # noqa: BLE001
+        if mag["max"] > 1e12 and isinstance(e, (RuntimeError, ValueError, FloatingPointError, ArithmeticError, np.linalg.LinAlgError)):
+            # the integration had already exploded (unstable step size for this scheme): the error is a loud abort, no row is returned
+            return {"fails": [], "nontrivial": False, "evals": 0, "states": 0, "transitions": 0, "outcome": f"{solver}:exploded-then-raised",
+                    "stats": {"n_exploded_then_raised": 1}}
         if _is_giveup(e):
             return {"fails": [], "nontrivial": False, "evals": 0, "states": 0, "transitions": 0, "outcome": f"{solver}:gave-up",
                     "stats": {"n_gave_up": 1}}
